@@ -40,9 +40,149 @@ CALLS = {'ev': ['expectation_value'], 'ev_multi': ['expectation_value'], 'ev_mul
          'ent': ['entanglement_entropy', 'entanglement_spectrum', 'entanglement_entropy_segment2'],
          'prob_charge': ['probability_per_charge', 'average_charge', 'charge_variance'], 'sample': ['sample_measurements'], 'overlap': ['overlap']}
 # reflected names that are deliberately not compared with a dense reference here (reason)
-NOT_COMPARED = {'correlation_length': 'property of the transfer matrix spectrum, not a measurement of C08\'s list',
-                'correlation_length2': 'same', 'correlation_length_charge_sectors': 'same',
-                'overlap_translate_finite': 'translation operator: not in the property\'s list of measurements'}
+NOT_COMPARED = {'correlation_length_charge_sectors': 'returns the list of charge sectors of the transfer matrix in which correlation_length '
+                                                     'may look (no number with a dense counterpart)',
+                'compute_K': 'momentum-resolved entanglement spectrum of cylinder states: permute_sites + TransferMatrix (C09), not in the '
+                             'property\'s list of measurements',
+                'norm_test': 'deviation from the canonical form: C07'}
+
+UNCHARGED_ONLY = {'correlation_length': 'states without charges only: the eigenvalues of the dense transfer matrix carry no sector labels',
+                  'correlation_length2': 'same'}
+
+# ---------------------------------------------------------------------- option space of the measurement methods
+# method -> parameter -> list of value classes that every run has to reach in a call COMPARED with the dense value (classes as logged
+# by harness/impl/c08_impl.py:summ; 'default' = the keyword is not passed; a trailing ':' or a leading "'" is a prefix pattern, '<int>' any
+# integer, '<pos>' a positive integer, '*' anything), or a string: the option is explicitly classified as not compared (reason).
+N_ALL = ['default', '1', '2', '0.5', '3', 'inf']
+NAME = "'"
+BC3 = ['finite', 'segment', 'infinite']
+_CORR = {'ops1': [NAME, 'strs:'], 'ops2': [NAME, 'strs:'], 'sites1': ['default', 'ints:'], 'sites2': ['default', 'ints:'],
+         'opstr': ['default', NAME], 'str_on_first': ['default', 'True', 'False'], 'hermitian': ['default', 'True'], 'autoJW': ['default', 'False']}
+_TCF = {'term_L': ['term:len1', 'term:len2'], 'term_R': ['term:'], 'autoJW': ['default', 'False'], 'opstr': ['default', 'None', NAME]}
+_XI = {'target': ['default', '1', '2'], 'charge_sector': ['default', '0', 'None'], 'return_charges': ['default', 'False', 'True'],
+       'tol_ev0': 'threshold of a warning about the dominant eigenvalue; no effect on the returned value of a canonical MPS',
+       '<boundary conditions>': ['infinite']}
+_BOND = {'bond': ['default', '0', '<pos>'], '<boundary conditions>': ['finite']}
+OPTION_SPACE = {
+    'MPS': {
+        'expectation_value': {'ops': [NAME, 'strs:', 'Array'], 'sites': ['default', 'ints:'], 'axes': ['default', 'seq:len2'], '<boundary conditions>': BC3},
+        'expectation_value_multi_sites': {'operators': ['strs:len2', 'strs:len3'], 'i0': ['0', '<pos>'], '<boundary conditions>': BC3},
+        'expectation_value_term': {'term': ['term:len1', 'term:len2', 'term:len3', 'term:len4+'], 'autoJW': ['default', 'False'], '<boundary conditions>': BC3},
+        'expectation_value_terms_sum': {'term_list': ['TermList'], '<boundary conditions>': ['finite', 'infinite']},
+        'correlation_function': dict(_CORR, **{'<boundary conditions>': BC3}),
+        'term_correlation_function_right': dict(_TCF, i_L=['<int>'], j_R=['default', 'ints:'], **{'<boundary conditions>': BC3}),
+        'term_correlation_function_left': dict(_TCF, i_L=['default', 'ints:'], j_R=['<int>'], **{'<boundary conditions>': BC3}),
+        'term_list_correlation_function_right': {'term_list_L': ['TermList'], 'term_list_R': ['TermList'], 'i_L': ['0', '<pos>', '-1'],
+                                                 'j_R': ['None', 'ints:single', 'ints:unsorted'], 'autoJW': ['default', 'False'],
+                                                 'opstr': ['default', 'None', NAME], '<boundary conditions>': BC3},
+        'entanglement_entropy': {'n': N_ALL, 'bonds': ['default', 'None', '<int>', 'ints:'], 'for_matrix_S': ['default', 'False', 'True'],
+                                 '<boundary conditions>': BC3},
+        'entanglement_entropy_segment': {'segment': ['default', 'ints:single', 'ints:consec:len2', 'ints:gaps:len2', 'ints:consec:len3', 'ints:unsorted'],
+                                         'first_site': ['default', 'None', 'ints:'], 'n': N_ALL, '<boundary conditions>': BC3},
+        'entanglement_entropy_segment2': {'segment': ['ints:single', 'ints:consec', 'ints:gaps'], 'n': N_ALL, '<boundary conditions>': BC3},
+        'entanglement_spectrum': {'by_charge': ['default', 'False', 'True'], '<boundary conditions>': BC3},
+        'get_rho_segment': {'segment': ['ints:consec:len2', 'ints:gaps:len2', 'ints:gaps:len3'], '<boundary conditions>': BC3},
+        'mutinf_two_site': {'max_range': ['default', 'None', '1', '2', '3'], 'n': N_ALL, '<boundary conditions>': BC3},
+        'probability_per_charge': _BOND, 'average_charge': _BOND, 'charge_variance': _BOND,
+        'overlap': {'other': ['MPS'], 'charge_sector': ['default', 'None', '0'], 'ignore_form': ['default', 'True'],
+                    'understood_infinite': ['default', 'True'], 'kwargs': 'passed on to TransferMatrix.eigenvectors (Arnoldi parameters)',
+                    '<boundary conditions>': ['finite', 'infinite']},
+        'overlap_translate_finite': {'psi': ['MPS'], 'shift': ['default', '1', '2', '-1'], '<boundary conditions>': ['finite']},
+        'sample_measurements': {'first_site': ['default', '0', '<pos>'], 'last_site': ['default', '<pos>'], 'ops': ['None', 'strs:len1', 'strs:len2', 'strs:len3'],
+                                'rng': ['Generator'], 'complex_amplitude': ['True', 'False'],
+                                'norm_tol': 'threshold of the ValueError for a state that is not normalised; no effect on the returned values',
+                                '<boundary conditions>': ['finite', 'infinite']},
+        'correlation_length': _XI, 'correlation_length2': _XI,
+    },
+    'MPSEnvironment': {
+        'expectation_value': {'ops': [NAME, 'strs:', 'Array'], 'sites': ['default', 'ints:'], 'axes': ['default', 'seq:len2']},
+        'expectation_value_multi_sites': {'operators': ['strs:'], 'i0': ['<int>']},
+        'expectation_value_term': {'term': ['term:'], 'autoJW': ['default', 'False']},
+        'expectation_value_terms_sum': {'term_list': ['TermList']},
+        'correlation_function': dict(_CORR, ops1=[NAME], ops2=[NAME], hermitian='hermitian=True assumes <bra|O|ket> = conj(<ket|O^dagger|bra>) with bra = ket: compared on MPS only'),
+        'term_correlation_function_right': dict(_TCF, i_L=['<int>'], j_R=['ints:']),
+        'term_correlation_function_left': dict(_TCF, i_L=['ints:'], j_R=['<int>']),
+        'term_list_correlation_function_right': {'term_list_L': ['TermList'], 'term_list_R': ['TermList'], 'i_L': ['<int>'], 'j_R': ['ints:'],
+                                                 'autoJW': ['default', 'False'], 'opstr': ['default', NAME]},
+        'full_contraction': {'i0': ['0', '<pos>']},
+    },
+}
+# every other public method of the classes, classified (reason): not a measurement
+_GROUPS = {
+    'constructor (C07)': ['from_Bflat', 'from_desired_bond_dimension', 'from_full', 'from_hdf5', 'from_lat_product_state', 'from_product_mps_covering',
+                          'from_product_state', 'from_random_unitary_evolution', 'from_singlets', 'project_onto_charge_sector', 'copy', 'save_hdf5'],
+    'changes / rewrites the state (C07, C09)': ['add', 'apply_local_op', 'apply_local_term', 'apply_product_op', 'canonical_form', 'canonical_form_finite',
+                                                'canonical_form_infinite1', 'canonical_form_infinite2', 'compress', 'compress_svd', 'convert_form', 'enlarge_chi',
+                                                'enlarge_mps_unit_cell', 'extract_enlarged_segment', 'extract_segment', 'gauge_total_charge', 'get_grouped_mps',
+                                                'group_sites', 'group_split', 'permute_sites', 'perturb', 'roll_mps_unit_cell', 'set_B', 'set_SL', 'set_SR',
+                                                'set_svd_theta', 'spatial_inversion', 'subspace_expansion', 'swap_sites'],
+    'accessor of tensors / sites / charges, helper': ['apply_JW_string_left_of_virt_leg', 'get_B', 'get_SL', 'get_SR', 'get_charge_tree_for_given_charge_sector',
+                                                      'get_op', 'get_site', 'get_theta', 'get_total_charge', 'outer_virtual_legs', 'shift_Array_unit_cells',
+                                                      'shift_Site_unit_cells', 'shift_charges_unit_cells', 'test_sanity'],
+    'environment storage (C18 / C20)': ['cache_optimize', 'clear', 'del_LP', 'del_RP', 'get_LP', 'get_LP_age', 'get_RP', 'get_RP_age', 'get_initialization_data',
+                                        'has_LP', 'has_RP', 'init_LP', 'init_RP', 'init_first_LP_last_RP', 'set_LP', 'set_RP'],
+}
+NOT_MEASUREMENT = {n: g for g, names in _GROUPS.items() for n in names}
+
+
+def value_reached(pattern, values):
+    """is some logged value class of `values` an instance of the required `pattern`"""
+    for v in values:
+        if pattern == '*' or v == pattern:
+            return True
+        if pattern == '<int>' and re.fullmatch(r'-?\d+', v):
+            return True
+        if pattern == '<pos>' and re.fullmatch(r'[1-9]\d*', v):
+            return True
+        if (pattern.endswith(':') or pattern == NAME or pattern.startswith(('ints:', 'strs:', 'term:', 'seq:'))) and v.startswith(pattern):
+            return True
+    return False
+
+
+def option_coverage(reflected, options):
+    """reflected: {'MPS': {method: [parameter names]}, ...} of the tree under test; options: what the compared calls passed.
+    Returns (table for the evidence, list of complaints)"""
+    rows, missing = {}, []
+    base = set(reflected.get('BaseMPSExpectationValue', {}))
+    for cname in ('MPS', 'MPSEnvironment'):
+        space = OPTION_SPACE[cname]
+        if cname == 'MPS':
+            for fn in sorted(base - set(reflected.get('MPS', {}))):
+                missing.append('BaseMPSExpectationValue.%s is not a method of MPS' % fn)
+        for fn, params in sorted(reflected.get(cname, {}).items()):
+            name = '%s.%s' % (cname, fn)
+            if fn in space:
+                reached = options.get(name, {})
+                row = {}
+                for pn in list(params) + [k for k in space[fn] if k.startswith('<')]:
+                    want = space[fn].get(pn)
+                    if want is None:
+                        missing.append('%s: option %r is neither drawn from its option space nor classified' % (name, pn))
+                        row[pn] = 'NOT COVERED'
+                    elif isinstance(want, str):
+                        row[pn] = 'not compared: ' + want
+                    else:
+                        got_ = reached.get(pn, {})
+                        row[pn] = dict(sorted(got_.items(), key=lambda kv: -kv[1])[:16])
+                        lack = [w for w in want if not value_reached(w, got_)]
+                        if lack:
+                            missing.append('%s: option %s: required value classes %s not reached in a compared call (reached: %s)'
+                                           % (name, pn, lack, sorted(got_)[:12]))
+                for pn in space[fn]:
+                    if not pn.startswith('<') and pn not in params:
+                        missing.append('%s: option %r of the option space is not a parameter of the method any more' % (name, pn))
+                rows[name] = row
+            elif fn in NOT_COMPARED:
+                rows[name] = 'not compared: ' + NOT_COMPARED[fn]
+            elif fn in NOT_MEASUREMENT:
+                rows[name] = 'not a measurement: ' + NOT_MEASUREMENT[fn]
+            else:
+                missing.append('%s(%s): public method that is neither compared with a dense value nor classified' % (name, ', '.join(params)))
+                rows[name] = 'NOT COVERED'
+        for fn in space:
+            if fn not in reflected.get(cname, {}):
+                missing.append('%s.%s: method of the option space does not exist' % (cname, fn))
+    return rows, missing
 
 
 def charge_type(sites):
@@ -157,6 +297,95 @@ def state_specs(rng, ctx):
     return out
 
 
+N_SET = [1, 2, 0.5, 3, 'inf']       # Renyi indices: von Neumann, integer, fractional, min-entropy
+CYC = {}
+
+
+def cyc(name, values):
+    """values[0], values[1], ... in turn (per name): every documented option value is reached in every run, whatever the seed"""
+    k = CYC.get(name, 0)
+    CYC[name] = k + 1
+    return values[k % len(values)]
+
+
+ABSENT = '<absent>'       # the keyword is not passed at all: the documented default
+
+
+def put(kw, key, value):
+    if value != ABSENT:
+        kw[key] = value
+    return kw
+
+
+def gen_option_measurements(rng, st, sites, L, fin, homog):
+    """entropies, spectra, mutual information, correlation length, translation overlap: every documented option of the methods drawn
+    from its option space (Renyi index n, bonds, segment shapes, first_site, max_range, by_charge, for_matrix_S, target, shift ...)"""
+    ms = []
+    kind = st['kind']
+    ctype = charge_type(sites)
+    span = L if fin else 2 * L + 1
+    tg = kind[:3]
+    # entanglement_entropy(n, bonds, for_matrix_S)
+    kw = put({}, 'n', cyc(tg + 'n_bonds', [ABSENT] + N_SET))
+    b = cyc(tg + 'bonds', [ABSENT, None, 'int', 'list', 'list'])
+    if b == 'int':
+        b = rng.randint(0, L)
+    elif b == 'list':
+        b = sorted(rng.sample(range(0, L + 1), rng.randint(1, min(L + 1, 3))))
+        if rng.random() < 0.3:
+            rng.shuffle(b)
+    put(kw, 'bonds', b)
+    put(kw, 'for_matrix_S', cyc(tg + 'fms', [ABSENT, False, True]))
+    ms.append({'f': 'ent_bonds', 'kw': kw})
+    if kind == 'finite' and ctype == 'none' and L >= 2:
+        ms.append({'f': 'ent_matrixS', 'bond': rng.randint(1, L - 1), 'n': cyc('n_matrixS', N_SET)})
+    # entanglement_entropy_segment(segment, first_site, n)
+    shapes = [ABSENT, [0], [0, 1], [0, 2], [1, 2], [0, 1, 2], [1, 0], [0, 1, 3], [2, 0]]
+    shapes = [x for x in shapes if x == ABSENT or max(x) < (L if fin else span - 1)]
+    seg = cyc(tg + 'seg_shape%d' % len(shapes), shapes)
+    kw = put({}, 'segment', seg)
+    top = max(seg) if seg != ABSENT else 0
+    fs = cyc(tg + 'first_site', [ABSENT, None, 'list', 'list'])
+    if fs == 'list':
+        pool = list(range(L - top)) if fin else list(range(0, 2 * L + 1 - top))
+        fs = sorted(rng.sample(pool, rng.randint(1, min(len(pool), 3))))
+        if rng.random() < 0.3:
+            rng.shuffle(fs)
+    put(kw, 'first_site', fs)
+    put(kw, 'n', cyc(tg + 'n_seg', [ABSENT] + N_SET))
+    ms.append({'f': 'ent_seg', 'kw': kw})
+    # entanglement_entropy_segment2(segment, n)
+    if span >= 2:
+        if fin:
+            seg = sorted(rng.sample(range(L), rng.randint(1, min(L - 1, 3))))
+        else:
+            lo = rng.randrange(L)
+            seg = sorted(rng.sample(range(lo, lo + 5), rng.randint(1, 3)))
+        if rng.random() < 0.3:
+            rng.shuffle(seg)
+        ms.append({'f': 'ent_seg2', 'kw': put({'segment': seg}, 'n', cyc(tg + 'n_seg2', [ABSENT] + N_SET))})
+    # entanglement_spectrum(by_charge)
+    bc_ = cyc(tg + 'by_charge', [ABSENT, False, True])
+    if bc_ is True and kind != 'finite':
+        bc_ = False      # per-charge reference: total charge of the sites left of the bond, finite chains
+    ms.append(put({'f': 'spectrum'}, 'by_charge', bc_))
+    # mutinf_two_site(max_range, n)
+    if span >= 2:
+        kw = put({}, 'n', cyc(tg + 'n_mutinf', [ABSENT] + N_SET))
+        put(kw, 'max_range', cyc(tg + 'max_range', [ABSENT, None, 1, 2, 3] if fin else [1, 2, 3]))
+        ms.append({'f': 'mutinf', 'kw': kw})
+    # correlation_length2 / correlation_length(target, charge_sector, return_charges)
+    if kind == 'infinite' and ctype == 'none':
+        kw = put({}, 'target', cyc('target', [ABSENT, 1, 2]))
+        put(kw, 'charge_sector', cyc('xi_sector', [ABSENT, 0, None, ABSENT]))
+        put(kw, 'return_charges', cyc('xi_return', [ABSENT, False, True, ABSENT, True]))
+        ms.append({'f': 'corr_len', 'kw': kw})
+    # overlap_translate_finite(psi, shift)
+    if kind == 'finite' and homog and L >= 3:
+        ms.append(put({'f': 'translate', 'chi_b': rng.choice([None, 2])}, 'shift', cyc('shift', [ABSENT, 1, 2, -1, L - 1])))
+    return ms
+
+
 def gen_measurements(rng, st, tag, env=False):
     """measurement list for a state; env=True: only what is meaningful for MPSEnvironment with bra != ket"""
     sites = st['sites']
@@ -199,6 +428,9 @@ def gen_measurements(rng, st, tag, env=False):
         if not fin and max(i for _, i in term) - min(i for _, i in term) > 6:
             continue
         ms.append({'f': 'ev_term', 'term': term})
+        if len(ms) % 2 == 0 and len(term) <= 4:
+            # autoJW=False: the plain product of the operators, no Jordan-Wigner strings
+            ms.append({'f': 'ev_term', 'term': term, 'autoJW': False})
     if fin and st['kind'] == 'finite' or not fin:
         terms, strength = [], []
         for _ in range(rng.choice([2, 4])):
@@ -283,13 +515,28 @@ def gen_measurements(rng, st, tag, env=False):
         elif homog:
             ms.append({'f': 'tcf_right', 'term_L': tL, 'term_R': tR, 'i_L': 0, 'j_R': [L, 2 * L]})
             ms.append({'f': 'tcf_left', 'term_L': tL, 'term_R': tR, 'i_L': [-L, -2 * L], 'j_R': 0})
+        if homog and fin and L >= 4 and cyc('tcf_default_jR', [True, False]):
+            # documented default j_R=None of a finite MPS: every position right of term_L
+            ms.append({'f': 'tcf_right', 'term_L': tL, 'term_R': [tR[0][:1] + [0]], 'i_L': rng.randint(0, 1), 'j_R': None})
+        if homog and not fin and L == 1 and site_dim(sites[0]) == 2:
+            # documented defaults of an infinite MPS: one value per unit cell up to a distance of 10 unit cells
+            ms.append({'f': 'tcf_right', 'term_L': tL, 'term_R': tR, 'i_L': 0, 'j_R': None})
+            ms.append({'f': 'tcf_left', 'term_L': tL, 'term_R': tR, 'i_L': None, 'j_R': 0})
+        if homog and [x for x in ms if x['f'] == 'tcf_left']:
+            # autoJW=False with the documented opstr between the terms (operators without Jordan-Wigner string)
+            pool = [o for o in even_ops(sites[0]) if o in NEUTRAL_OPS or charge_type(sites) == 'none']
+            for base in ([x for x in ms if x['f'] == 'tcf_right' and x['j_R'] is not None][-1], [x for x in ms if x['f'] == 'tcf_left' and x['i_L'] is not None][-1]):
+                m2 = dict(base, term_L=[[ev(0), 0]] + ([[ev(1), 1]] if len(base['term_L']) > 1 else []), term_R=[[ev(0), 0]], autoJW=False)
+                put(m2, 'opstr', cyc('tcf_opstr', [ABSENT, None] + [rng.choice(pool)] * 3) if pool else ABSENT)
+                ms.append(m2)
     # --- correlation functions between sums of terms (TermLists mixing charged and uncharged, bosonic and fermionic terms)
     for _ in range(3 if homog else 2):
         m = gen_tlcf(rng, st, sites, L, fin, homog, ev, fo, fsites)
         if m is not None:
             ms.append(m)
     if env:
-        return [m for m in ms if m['f'] in ('ev', 'ev_multi', 'ev_multi_sites', 'ev_term', 'corr', 'terms_sum', 'tcf_right', 'tcf_left', 'tlcf_right')
+        ms.append({'f': 'full_contraction', 'i0': list(range(L))})
+        return [m for m in ms if m['f'] in ('ev', 'ev_multi', 'ev_multi_sites', 'ev_term', 'corr', 'terms_sum', 'tcf_right', 'tcf_left', 'tlcf_right', 'full_contraction')
                 and not m.get('lists') and not m.get('kwargs', {}).get('hermitian')]
     # --- density matrices, entropies
     if span >= 2:
@@ -299,16 +546,15 @@ def gen_measurements(rng, st, tag, env=False):
         ms.append({'f': 'rho', 'segment': seg})
         if span >= 4:
             ms.append({'f': 'rho', 'segment': [0, 2, 3]})
-    if st['kind'] == 'finite' and L >= 3:
-        ms.append({'f': 'mutinf', 'seg2': True})
     if st['kind'] == 'finite' and L >= 2:
-        ms.append({'f': 'ent', 'n': rng.choice([1, 1, 2, 3]), 'segment': sorted(rng.sample(range(L), rng.randint(1, min(L - 1, 3))))})
-    if st['kind'] == 'infinite':
-        ms.append({'f': 'mutinf', 'max_range': 2})
+        ms.append({'f': 'ent', 'n': rng.choice(N_SET), 'segment': sorted(rng.sample(range(L), rng.randint(1, min(L - 1, 3))))})
+    ms.extend(gen_option_measurements(rng, st, sites, L, fin, homog))
     # --- charges, sampling
     if st['kind'] == 'finite':
         if any(s[1].get('conserve', s[1].get('cons_N')) not in (None, 'None') for s in sites):
-            ms.append({'f': 'prob_charge', 'bond': rng.randint(1, L - 1) if L > 1 else 0})
+            b = cyc('charge_bond', ['default', 0, 'any', 'any'])
+            ms.append({'f': 'prob_charge', 'bond': 0, 'default_bond': True} if b == 'default' else
+                      {'f': 'prob_charge', 'bond': rng.randint(1, L - 1) if L > 1 and b == 'any' else 0})
         for _ in range(8 if (homog and cls[0] in ('SpinHalfSite', 'SpinSite') and sites[0][1].get('conserve') == 'None') else 4):
             m = {'f': 'sample', 'seed': rng.randrange(10 ** 6), 'complex_amplitude': rng.random() < 0.6}
             r = rng.random()
@@ -536,12 +782,14 @@ def judge(ctx, case, tag, m, r, tol):
     if what == 'terms_sum' and terms_sum_truncated(case['state'], m):
         vkey = F21_KEY
     if got.shape != want.shape:
-        ctx.fail('oracle', '%s returned %d values, expected %d [%s]' % (what, got.size, want.size, json.dumps(m)[:200]), info, match_key='C08:%s:shape' % what)
+        ctx.fail('oracle', '%s returned %d values, expected %d %s[%s]' % (what, got.size, want.size, r.get('msg', ''), json.dumps(m)[:200]), info,
+                 match_key='C08:%s:shape' % what)
         return False
     if got.size and np.max(np.abs(got - want)) > t * max(1.0, np.max(np.abs(want))):
         k = int(np.argmax(np.abs(got - want)))
-        ctx.fail('oracle', '%s: value #%d = %r, dense <bra|O|ket> = %r (max diff %.2e) [%s]'
-                 % (what, k, complex(got[k]), complex(want[k]), np.max(np.abs(got - want)), json.dumps(m)[:300]), info,
+        ctx.fail('oracle', '%s: value #%d = %r, dense %s = %r (max diff %.2e) %s[%s]'
+                 % (DESCR.get(what, what), k, complex(got[k]), 'value' if what in DESCR else '<bra|O|ket>', complex(want[k]),
+                    np.max(np.abs(got - want)), (r.get('msg', '') + ' ') if r.get('msg') else '', json.dumps(m)[:300]), info,
                  match_key=vkey)
         return False
     if what == 'prob_charge' and r.get('nonmod') and len(r['avg']) == len(r['avg_want']):
@@ -550,6 +798,18 @@ def judge(ctx, case, tag, m, r, tol):
         if len(r['var']) == len(r.get('var_want', [])) and np.max(np.abs(cplx(r['var']) - cplx(r['var_want']))) > 10 * t:
             ctx.fail('oracle', 'charge_variance %s, dense %s' % (r['var'], r['var_want']), info, match_key='C08:charge_variance')
     return True
+
+
+DESCR = {'ent_bonds': 'entanglement_entropy(n, bonds, for_matrix_S) vs entropy of the dense Schmidt values',
+         'ent_matrixS': 'entanglement_entropy(for_matrix_S=True) with a matrix S (last value: ValueError raised with for_matrix_S=False)',
+         'ent_seg': 'entanglement_entropy_segment(segment, first_site, n) vs entropy of the dense reduced density matrix',
+         'ent_seg2': 'entanglement_entropy_segment2(segment, n) vs entropy of the dense reduced density matrix',
+         'ent': 'entanglement_entropy(n) / entanglement_spectrum / entanglement_entropy_segment2(segment, n)',
+         'spectrum': 'entanglement_spectrum(by_charge): exp(-xi) vs squared dense Schmidt values (per bond, per charge left of it)',
+         'mutinf': 'mutinf_two_site(max_range, n) vs S_n(i) + S_n(j) - S_n(i,j) of the dense reduced density matrices',
+         'corr_len': 'correlation_length2 / correlation_length vs -L/log|lambda_k/lambda_0| of the dense transfer matrix',
+         'translate': 'overlap_translate_finite vs <psi|T^shift|phi> of the dense vectors',
+         'full_contraction': 'MPSEnvironment.full_contraction(i0) vs dense <bra|ket>'}
 
 
 def run_chunks(ctx, kind, cases, nproc=None):
@@ -766,12 +1026,19 @@ def main(ctx):
     ctx.proof = common.check_proofs('C08', extra_targets=['Model/SampleCheck.vo', 'Model/CorrTermCheck.vo'])
     boost = 1 if ctx.proof.ok else 3
     hist = {}
+    CYC.clear()
     table = {}       # measurement function -> {'MPS' | 'MPSEnvironment': {charge type: number of calls compared with the dense value}}
+    options = {}     # 'Class.method' -> {parameter: {class of the value passed ('default': not passed): number of compared calls}}
 
-    def tally(kind, cls_, ctype):
-        for fn in CALLS[kind]:
+    def tally(calls, ctype, bc=None):
+        """calls: the calls of measurement methods the runner logged for one compared record [class, method, {parameter: value class}]"""
+        for cls_, fn, opts in calls:
             d = table.setdefault(fn, {}).setdefault(cls_, {})
             d[ctype] = d.get(ctype, 0) + 1
+            o = options.setdefault('%s.%s' % (cls_, fn), {})
+            for pn, v in list(opts.items()) + ([('<boundary conditions>', bc)] if bc else []):
+                o.setdefault(pn, {})
+                o[pn][v] = o[pn].get(v, 0) + 1
 
     # ------------------------------------------------------------------ states x measurements
     cases = []
@@ -798,8 +1065,8 @@ def main(ctx):
             nontriv = 'error' not in rec and max(r['chi'] + [1]) > 1
             if m['f'] == 'tlcf_right' and nontriv:
                 nontriv = max(rec.get('max_part', [0.0]) + [0.0]) > 1e-6      # some product of terms has a non-zero value
-            if 'error' not in rec:
-                tally(m['f'], 'MPSEnvironment' if case.get('bra') else 'MPS', charge_type(case['state']['sites']))
+            if 'error' not in rec and ok:
+                tally(rec.get('calls', []), charge_type(case['state']['sites']), case['state']['kind'])
             ctx.count(case['tag'], [case['state'], case['seed'], m], nontrivial=nontriv,
                       sample={'state': case['state'], 'chi': r['chi'], 'measure': m})
 
@@ -831,7 +1098,7 @@ def main(ctx):
         if case['kind'] == 'infinite' and r.get('gap', 1) < 1e-3:
             nontriv = False          # (nearly) degenerate dominant eigenvalue: not decidable
         ctx.count('overlap', case, nontrivial=nontriv)
-        tally('overlap', 'MPS', charge_type(case['sites']))
+        tally(r.get('calls', []), charge_type(case['sites']), case['kind'])
         if nontriv and np.max(np.abs(got - want)) > tol:
             ctx.fail('oracle', 'overlap (%s): %s, dense value %s' % (case['kind'], list(got), list(want)), {'stream': 'overlap', 'case': case},
                      match_key='C08:overlap:' + case['kind'])
@@ -1053,10 +1320,17 @@ def main(ctx):
                 rows['%s.%s' % (cname, fn)] = dict(sorted(got_.items()))
                 if not got_:
                     missing.append('%s.%s' % (cname, fn))
+                elif fn in UNCHARGED_ONLY and 'none' in got_:
+                    rows['%s.%s' % (cname, fn)] = dict(rows['%s.%s' % (cname, fn)], note=UNCHARGED_ONLY[fn])
                 elif cname == 'MPS' and not (any(k.startswith('Z') for k in got_) and 'U1' in got_ and
                                              ('none' in got_ or fn in CALLS['prob_charge'])):
                     missing.append('%s.%s (charge types %s only)' % (cname, fn, sorted(got_)))
         ctx.cov['measurement_function_coverage (calls compared with the dense value, per charge type of the state)'] = rows
+        orows, omissing = option_coverage(refl[0].get('all', {}), options)
+        ctx.cov['measurement_option_coverage (public method x parameter -> value classes passed in calls compared with the dense value: count)'] = orows
+        for x in omissing:
+            ctx.fail('correspondence', 'option space of the measurement methods of tenpy.networks.mps (public methods and their parameters found by '
+                     'reflection): ' + x, {'stream': 'coverage', 'what': x})
         for x in missing:
             ctx.fail('correspondence', 'measurement function %s of tenpy.networks.mps (found by reflection) is not exercised by the '
                      'harness on states without charge, with a U(1) and with a Z_N charge' % x, {'stream': 'coverage', 'function': x})
